@@ -471,6 +471,10 @@ class Harness:
                     self.ev("blocking", pid)
                     S.count_fault("thread-blocks-forever")
                     threading.Event().wait()
+                elif op == "wait-marker":
+                    # a thread payload that reacts to something happening elsewhere (the termination, say)
+                    self.marker(step[1]).wait()
+                    self.ev("step", pid)
                 elif op == "stall":
                     S.count_fault("stall")
                     self.ev("stall", pid, d=step[1])
